@@ -223,9 +223,76 @@ pub fn run_all(sh: &mut Shard, f: &mut dyn FnMut(&mut Shard, &str, &str) -> Resu
 /// Dense position grids: the same kind of construct at many (row, column) positions of one program
 /// (1-3 digit rows, 1-2 digit columns, several per row), each construct printing one token.
 /// Whatever the generated labels are derived from, two constructs must never share them.
-pub const GRID_KINDS: [&str; 6] = ["if-line", "while", "for", "do", "select", "if-block"];
+pub const GRID_KINDS: [&str; 7] = ["if-line", "while", "for", "do", "select", "if-block", "static-dim"];
+
+/// A STATIC SUB / FUNCTION whose DIM statements (1-3 variables each: arrays, scalars, records of both spellings, several
+/// statements per row) are guarded so that they run once: every array element counts the calls, so each of the three calls
+/// must print, per array, its own running count.
+fn static_dim_program(variant: usize) -> (String, String) {
+    let is_fn = variant % 2 == 1;
+    let mut body: Vec<String> = vec![];
+    let mut arrays: Vec<String> = vec![];
+    let mut k = 0usize;
+    for r in 1..=40usize {
+        let indent = 2 + (r * (3 + variant)) % 9;
+        let mut line = " ".repeat(indent);
+        let per_row = 1 + (r + variant) % 2;
+        for j in 0..per_row {
+            if j > 0 {
+                line.push_str(": ");
+            }
+            let nvars = 1 + (r + j + variant) % 3;
+            let mut decls: Vec<String> = vec![];
+            for v in 0..nvars {
+                k += 1;
+                let d = match (k + variant) % 5 {
+                    0 => {
+                        arrays.push(format!("ZA{}%", k));
+                        format!("ZA{}%(1 TO 3)", k)
+                    }
+                    1 => format!("ZN{} AS INTEGER", k),
+                    2 => {
+                        arrays.push(format!("ZB{}", k));
+                        format!("ZB{}(2) AS LONG", k)
+                    }
+                    3 => format!("ZS{}$", k),
+                    _ => {
+                        arrays.push(format!("ZC{}#", k));
+                        format!("ZC{}#({})", k, 1 + v)
+                    }
+                };
+                decls.push(d);
+            }
+            line.push_str(&format!("DIM {}", decls.join(", ")));
+        }
+        body.push(line);
+    }
+    for a in &arrays {
+        body.push(format!("  {}(1) = {}(1) + 1: PRINT \"{}\"; {}(1)", a, a, a, a));
+    }
+    let mut lines: Vec<String> = vec![];
+    let mut expected = String::new();
+    for call in 1..=3 {
+        lines.push(if is_fn { "ZQ% = ZP%".to_string() } else { "ZP".to_string() });
+        for a in &arrays {
+            expected.push_str(&format!("{} {} \r\n", a, call));
+        }
+    }
+    lines.push(if is_fn { "FUNCTION ZP% STATIC".to_string() } else { "SUB ZP STATIC".to_string() });
+    lines.extend(body);
+    if is_fn {
+        lines.push("  ZP% = 1".to_string());
+    }
+    lines.push(if is_fn { "END FUNCTION".to_string() } else { "END SUB".to_string() });
+    let mut text = lines.join("\n");
+    text.push('\n');
+    (text, expected)
+}
 
 pub fn grid_program(kind: usize, variant: usize) -> (String, String) {
+    if GRID_KINDS[kind] == "static-dim" {
+        return static_dim_program(variant);
+    }
     let mut lines: Vec<String> = vec![];
     let mut expected = String::new();
     let mut tok = 0usize;
@@ -245,7 +312,8 @@ pub fn grid_program(kind: usize, variant: usize) -> (String, String) {
                 "while" => format!("ZW = 0: WHILE ZW < 1: ZW = ZW + 1: PRINT \"t{}\": WEND", tok),
                 "for" => format!("FOR ZF = 1 TO 1: PRINT \"t{}\": NEXT", tok),
                 "do" => format!("DO: PRINT \"t{}\": LOOP UNTIL -1", tok),
-                "select" => format!("SELECT CASE 1: CASE 1: PRINT \"t{}\": END SELECT", tok),
+                // (CASE needs a line of its own; the next construct follows END SELECT on the same line)
+                "select" => format!("SELECT CASE 1\nCASE 1: PRINT \"t{}\"\nEND SELECT", tok),
                 _ => format!("IF -1 THEN: PRINT \"t{}\": END IF", tok),
             };
             // a single-line IF swallows the rest of the line: one per row, at varying columns
